@@ -44,7 +44,7 @@ fn stub_descriptor_new(_definition: &str, fwd: InnerOp, inv: Option<InnerOp>) ->
     mk_descriptor(fwd, inv.unwrap_or_default(), invertible, false)
 }
 
-// @harness c07_new_t_obs_folding prop=C07 tier=thorough cap=3600 btree_cap=24 stubs="M-BTREE(CAP 24), S-PPNEW(ParsedParameters::new -> typed set for harness numbers), OpDescriptor::new (no tokenisation), Uuid::new_v4 = nil" bound="translation x,y,z and rates dx,dy,dz, scale trend ds, t_epoch, t_obs in D-TINY, scale s in D-TINY ppm, no rotation: stored T == T + (t_obs - t_epoch)*DT and stored S == 1 + s*1e-6 + (t_obs - t_epoch)*ds*1e-6; fixed_time flag set"
+// @harness c07_new_t_obs_folding prop=C07 tier=thorough cap=3600 btree_cap=20 stubs="M-BTREE(CAP 20), S-PPNEW(ParsedParameters::new -> typed set for harness numbers), OpDescriptor::new (no tokenisation), Uuid::new_v4 = nil" bound="x, dx, s (ppm), ds, t_epoch, t_obs in D-TINY (y=2, dy=1, z=dz=0 concrete), no rotation: stored T == T + (t_obs - t_epoch)*DT and stored S == 1 + s*1e-6 + (t_obs - t_epoch)*ds*1e-6; fixed_time flag set"
 #[kani::proof]
 #[kani::stub(ParsedParameters::new, stub_pp_new)]
 #[kani::stub(OpDescriptor::new, stub_descriptor_new)]
@@ -52,8 +52,10 @@ fn stub_descriptor_new(_definition: &str, fwd: InnerOp, inv: Option<InnerOp>) ->
 #[kani::stub(mk_raw_real, mk_raw_dummy)]
 #[kani::unwind(30)]
 fn c07_new_t_obs_folding() {
-    let (x, y, z) = (tiny_f(), tiny_f(), tiny_f());
-    let (dx, dy, dz) = (tiny_f(), tiny_f(), tiny_f());
+    // one translation component and its rate symbolic, the other two concrete: the three are
+    // treated by one loop, the scale by a separate statement
+    let (x, y, z) = (tiny_f(), 2., 0.);
+    let (dx, dy, dz) = (tiny_f(), 1., 0.);
     let (s, ds) = (tiny_f(), tiny_f());
     let (epoch, t_obs) = (tiny_f(), tiny_f());
     unsafe {
@@ -65,7 +67,6 @@ fn c07_new_t_obs_folding() {
         ];
     }
     // a dynamic transformation (otherwise t_obs is not looked at)
-    kani::assume(dx != 0. || dy != 0. || dz != 0. || ds != 0.);
     let raw = std::mem::ManuallyDrop::new(mk_raw_real(unsafe { &N_REAL }));
     let ctx = NullCtx;
     let r = std::mem::ManuallyDrop::new(new(&raw, &ctx));
